@@ -20,6 +20,7 @@ EXPLANATION = (
     "and remove the backup in a finally; (e) FileSync.always / never return the constants True / False, FileSync.update "
     "returns mtime(source) > mtime(destination) strictly, DocSync.update stores every source key into the destination."
     ' The backup context of the document merge is not wrapped in buffered mode.'
+    " The proxy's copy() has no skip of its own (C13-k); a key strategy is built from --key only for a non-empty pattern; collected changes are not applied by a shallow update(); the in-memory roll-back copy depends on nothing but 'empty / no file name / file missing'."
 )
 UNDECIDED = "The 'iff' for every conflict shape and exact equality of the document with its pre-sync content after a roll-back are not decided."
 
